@@ -150,7 +150,7 @@ def main():
             "guard": "GTIRB_REWRITING_VERIF",
             "enable": "checks run the library from /repo's working tree (editable install in /venv) with GTIRB_REWRITING_VERIF=1 in the environment of the runner subprocesses",
             "baseline_off_cmd": "cd /repo && env -u GTIRB_REWRITING_VERIF /venv/bin/python -m pytest -ra -q -p no:cacheprovider --timeout=900 --continue-on-collection-errors",
-            "source_commits": ["a408535", "1b839a1"],
+            "source_commits": ["a408535", "1b839a1", "23caf2a"],
             "add_only": True,
         },
         "engines": [{"name": "tlc", "path": "/usr/local/bin/tlc",
